@@ -1366,13 +1366,16 @@ class ListNode(SyntaxNodeBase):
         for node in new_vals:
             if isinstance(node, ValueNode):
                 node._listed_value = (node.value, node.is_negative)
-        end = self._nodes[-1]
-        # pop off final shortcut if it's a jump the user left off
-        if (
-            isinstance(end, ShortcutNode)
-            and end._type == Shortcuts.JUMP
-            and len(end._original) == 0
-        ):
+        # pop off the final shortcuts that are jumps the user left off (all of them: the entries of a jump
+        # that is popped are new to the list the next time, and the jump before it would take them in)
+        while len(self._nodes) > 0:
+            end = self._nodes[-1]
+            if not (
+                isinstance(end, ShortcutNode)
+                and end._type == Shortcuts.JUMP
+                and len(end._original) == 0
+            ):
+                break
             self._nodes.pop()
             self._shortcuts.pop()
 
